@@ -7,6 +7,8 @@ import (
 	"fmt"
 	"path/filepath"
 	"strings"
+	"sync"
+	"sync/atomic"
 	"time"
 
 	"github.com/douban/gobeansdb/store"
@@ -125,6 +127,14 @@ func vfC05(env *vfc.Env) {
 				if env.Want(id) {
 					vfC05Sibling(env, id, rnd.Split(uint64(7700+i)), step, merge)
 				}
+			}
+		}
+	}
+	if a.Targeted {
+		for i, merge := range []bool{false, true} {
+			id := fmt.Sprintf("r%d-gc-requested-while-post-rotation-flush-pending-merge=%v", i, merge)
+			if env.Want(id) {
+				vfC05RotationPending(env, id, rnd.Split(uint64(7800+i)), merge)
 			}
 		}
 	}
@@ -576,6 +586,91 @@ func vfC05Sibling(env *vfc.Env, id string, r *ref.Rand, step string, merge bool)
 		return
 	}
 	check("after-restart-rm-"+rm, sut.hs)
+	res.Event("placement_cases", 1)
+}
+
+// vfC05RotationPending: a client write rotates the data file; the asynchronous flush of the
+// previous file (spawned by the rotation) has not run yet - it is parked at its entry hook,
+// as when it queues behind the periodic flusher - while the periodic flusher has already
+// written the new head file. A GC request arriving now may resolve a range that ends with the
+// previous file, whose newest records are still only in its write buffer. Every acknowledged
+// write must survive the pass (and the process must survive the late flush).
+func vfC05RotationPending(env *vfc.Env, id string, r *ref.Rand, merge bool) {
+	res := env.Res
+	cfg := vfC05Config(r)
+	c := &vfC05Case{Cfg: cfg, Kind: "gc-while-post-rotation-flush-pending", Merge: merge, Seed: r.Uint64()}
+	c.Keys = vfTagSafeKeys(r, r.Range(3, 6), cfg)
+	maxVal := vfC05MaxVal(cfg)
+	res.Begin(id, c)
+	sut, err := vfOpenSUT(cfg, filepath.Join(env.Work, id), res)
+	if err != nil {
+		res.Violate(id, "c05:open-error", err.Error(), c)
+		return
+	}
+	defer sut.Destroy()
+	hooks := vfc.InstallHooks()
+	pre := vfC05Preload(sut, c.Keys, r, maxVal)
+	sut.quiet = false
+	clientG := vfc.GoID()
+	var parked int32
+	release := make(chan struct{})
+	var relOnce sync.Once
+	doRelease := func() { relOnce.Do(func() { close(release) }) }
+	defer doRelease()
+	hooks.SetPoint(func(name string, x, y int64, s string) {
+		// only the store's own post-rotation goroutine (it names a chunk) is parked
+		if name == "data.flush.enter" && y >= 0 && vfc.GoID() != clientG {
+			atomic.AddInt32(&parked, 1)
+			<-release
+		}
+	})
+	defer hooks.SetPoint(nil)
+	cl := &vfClient{hs: sut.hs, id: 1}
+	head0, _ := store.VFChunks(sut.hs, 0)
+	// unflushed acknowledged writes into the head file until it rotates
+	for i := 0; i < 200; i++ {
+		cl.set(c.Keys[r.Intn(len(c.Keys))], "random", r.Range(60, maxVal))
+		if h, _ := store.VFChunks(sut.hs, 0); h != head0 {
+			break
+		}
+	}
+	head, _ := store.VFChunks(sut.hs, 0)
+	if head == head0 || atomic.LoadInt32(&parked) == 0 {
+		// (the goroutine is spawned by the rotating write; give it a moment to reach its first statement)
+		for i := 0; i < 2000 && atomic.LoadInt32(&parked) == 0; i++ {
+			time.Sleep(100 * time.Microsecond)
+		}
+	}
+	if head == head0 || atomic.LoadInt32(&parked) == 0 {
+		res.Event("rotation_pending.not_reached", 1)
+		return
+	}
+	// the periodic flusher writes the new head file (the flush of the previous one is still pending)
+	store.VFFlush(sut.hs, true)
+	ranges := store.VFLegalRanges(sut.hs, 0)
+	var rg *[4]int
+	for i := range ranges {
+		if ranges[i][1] == head-1 {
+			rg = &ranges[i]
+		}
+	}
+	buffered := store.VFBufferedRecords(sut.hs, 0)
+	if rg == nil {
+		res.Seen("rotation-pending/range-not-offered")
+		res.Event("rotation_pending.range_not_offered", 1)
+	} else {
+		c.Range = [2]int{rg[0], rg[1]}
+		res.Seen(fmt.Sprintf("rotation-pending/gc-over-buffered-file/merge=%v", merge))
+		res.Event("rotation_pending.gc_over_file_with_buffered_records", 1)
+		res.Event("rotation_pending.buffered_records", int64(buffered))
+		store.VFGCDirect(sut.hs, 0, rg[0], rg[1], merge)
+	}
+	doRelease() // now the late flush of the previous file runs
+	hooks.SetPoint(nil)
+	hooks.WaitQuiescent(vfWatchdog)
+	cl.get(c.Keys[0], false, false)
+	all := append(append([]lincheck.Op{}, pre.ops...), cl.ops...)
+	vfC05Finish(res, id, c, sut, all, r)
 	res.Event("placement_cases", 1)
 }
 
